@@ -212,6 +212,27 @@ Fixpoint next_data (evs : list event) : option (bytes * bool * berr * list event
   | [] => None
   end.
 
+(* "<rcpt> text" -> text (the LMTP server names the recipient in front of the backend's text) *)
+Fixpoint after_rcpt_prefix (m : bytes) : option bytes :=
+  match m with
+  | ">"%char :: " "%char :: r => Some r
+  | " "%char :: _ => None
+  | _ :: r => after_rcpt_prefix r
+  | [] => None
+  end.
+
+(* Close reports the backend's refusal: its code, and its text - as it is, or behind one "<rcpt> " *)
+Definition close_reports (c1 : res) (verdict : berr) : bool :=
+  match verdict, c1 with
+  | BSmtp c _ m, RSmtpR c' _ m' =>
+      (c =? c')%Z && (bytes_eqb m' m
+                      || match m' with
+                         | "<"%char :: r => match after_rcpt_prefix r with Some t => bytes_eqb t m | None => false end
+                         | _ => false
+                         end)
+  | _, _ => true
+  end.
+
 Fixpoint c16_walk (calls : list call) (results : list (list res)) (evs : list event) : bool :=
   match calls, results with
   | KMail from _ :: cs, [r] :: rs =>
@@ -237,7 +258,8 @@ Fixpoint c16_walk (calls : list call) (results : list (list res)) (evs : list ev
           (negb (cr_only_in_crlf body)
            || (if whole then bytes_eqb got (normalise body) else is_prefix got (normalise body)))
           && match closeres with
-             | c1 :: _ => match verdict with BNil => is_nil c1 | _ => negb (is_nil c1) && negb (is_local c1) end
+             | c1 :: _ => match verdict with BNil => is_nil c1
+                                            | _ => negb (is_nil c1) && negb (is_local c1) && close_reports c1 verdict end
              | [] => false
              end
           && match closeres with
